@@ -45,7 +45,7 @@ extern __thread unsigned int g_myth_random_temp;
 extern __thread int g_worker_rank;
 
 #define MAXW 16
-#define MAXT 256
+#define MAXT 2304   /* large barriers (C06: N beyond any internal batch size) */
 #define MAXO 128
 #define MAXOPS 4096
 #define MAXSTK 4096
@@ -75,9 +75,14 @@ static obj_t objs[MAXO]; static int n_objs;
 static prog_t progs[MAXT]; static int n_threads;
 static prog_t scripts[32];
 static int n_workers = 2, pswitch = 30, rpoint = 1, msnap = 0;
+static int snapmax = 1000, snapmax_set = 0;   /* case option `snapmax K`: at most K entries of a sleep stack are listed */
 static long maxsteps = 200000, clock_step = 1000;
 static uint64_t seed = 1;
 static int dflt_parent_first = 0;
+/* targeted preemption (case option `hold <point-id> <moves> [<percent>]`): a participant arriving at that
+   POINT is switched away and stays disabled until <moves> real moves of other participants have happened
+   (or nobody else is enabled); applied with probability <percent> (default 100) */
+static char hold_id[4][32]; static long hold_moves[4]; static int hold_pct[4]; static int n_hold;
 
 /* ------------------------------------------------------------ controller -- */
 static FILE * tr;
@@ -168,10 +173,15 @@ static void verdict_and_exit(const char * v, int code) {
 static int enabled(int q) {
   return st[q] == 1 || (st[q] == 2 && moves > spin_mark[q]);
 }
+static volatile int heldflag[MAXW];   /* parked by a `hold` directive (not a real spinner) */
 static int choose_other(int me) {
   int c[MAXW], n = 0;
   for (int q = 0; q < n_workers; q++) if (q != me && enabled(q)) c[n++] = q;
-  if (!n) return -1;
+  if (!n) {
+    /* nobody enabled: a participant parked by `hold` is released early rather than declaring quiescence */
+    for (int q = 0; q < n_workers; q++) if (q != me && heldflag[q]) c[n++] = q;
+    if (!n) return -1;
+  }
   return c[rnd() % n];
 }
 static void pass_to(int me, int q) {
@@ -228,8 +238,9 @@ static void pr_stack(myth_sleep_stack_t * s) {
   char b[16];
   fprintf(tr, "stk=[");
   myth_sleep_queue_item_t it = s->top; int n = 0;
-  while (it && n < 1000) { fprintf(tr, "%s%s", n ? "," : "", tname(it, b)); it = it->next; n++; }
+  while (it && n < (snapmax_set ? snapmax : 1000)) { fprintf(tr, "%s%s", n ? "," : "", tname(it, b)); it = it->next; n++; }
   fprintf(tr, "]");
+  if (snapmax_set && it) fprintf(tr, " more=1");     /* only with an explicit `snapmax`: the list was cut */
 }
 static void snapshot_obj(obj_t * o) {
   char b[16];
@@ -342,7 +353,19 @@ static void ctl_cb(int kind, const char * id, const void * obj, long val) {
   /* POINT: the scheduling decision comes first, the line is written when this participant
      holds the token again, i.e. immediately before the access (nobody runs in between) */
   step_no--;
-  maybe_switch(w);
+  {
+    int held = 0;
+    for (int h = 0; h < n_hold && !held; h++)
+      if (!strcmp(hold_id[h], id) && (int)(rnd() % 100) < hold_pct[h]) {
+        /* disabled until hold_moves[h] further real moves by others (enabled(q): moves > spin_mark) */
+        int q;
+        st[w] = 2; spin_mark[w] = moves + hold_moves[h] - 1; heldflag[w] = 1;
+        q = choose_other(w);
+        if (q >= 0) { pass_to(w, q); held = 1; } else st[w] = 0;
+        heldflag[w] = 0;
+      }
+    if (!held) maybe_switch(w);
+  }
   step_no++;
   fprintf(tr, "P %ld w%d %s %s ", step_no, w, aname(w, b), id);
   pr_objref(id, obj); fprintf(tr, " "); pr_val(val); fprintf(tr, " | ");
@@ -616,6 +639,8 @@ static void parse_ops(char * s, prog_t * p) {
     if (o->n) p->n++;
     if (p->n >= MAXOPS) break;
   }
+  /* keep only what was parsed (thousands of threads x MAXOPS slots would not fit) */
+  { op_t * q = realloc(p->ops, (size_t)(p->n ? p->n : 1) * sizeof(op_t)); if (q) p->ops = q; }
 }
 
 static void load_case(const char * path) {
@@ -631,6 +656,11 @@ static void load_case(const char * path) {
     else if (!strcmp(k, "pswitch")) pswitch = atoi(rest);
     else if (!strcmp(k, "rpoint")) rpoint = atoi(rest);
     else if (!strcmp(k, "msnap")) msnap = atoi(rest);
+    else if (!strcmp(k, "hold") && n_hold < 4) {
+      hold_pct[n_hold] = 100;
+      if (sscanf(rest, "%31s %ld %d", hold_id[n_hold], &hold_moves[n_hold], &hold_pct[n_hold]) >= 2) n_hold++;
+    }
+    else if (!strcmp(k, "snapmax")) { snapmax = atoi(rest); snapmax_set = 1; }
     else if (!strcmp(k, "maxsteps")) maxsteps = atol(rest);
     else if (!strcmp(k, "clockstep")) clock_step = atol(rest);
     else if (!strcmp(k, "parentfirst")) dflt_parent_first = atoi(rest);
